@@ -11,6 +11,7 @@
    - pods are integers (rank of the pod name). *)
 From Coq Require Import List ZArith Bool Arith.
 From Verif Require Export Lib.ListX Lib.SortX.
+From Verif Require Import Gen.Gen_scores.
 Import ListNotations.
 Open Scope Z_scope.
 
@@ -251,16 +252,18 @@ Definition filter_view (l : ledger) (minors : list nat) : ledger :=
                                  | None => None end) 0 (free l) in
     reset_free (mkLedger tot [] usd []).
 
-(* LeastAllocated scoreDevice with the default weights (gpu-memory-ratio, gpu-memory, rdma, fpga : 1) *)
+(* scoreDevice with the default weights (gpu-memory-ratio, gpu-memory, rdma, fpga : 1) under the
+   configured scoring strategy ([most] = MostAllocated, otherwise LeastAllocated); the per-resource
+   scores are the functions REGENERATED from scoring.go (Gen.Gen_scores) *)
 Definition weighted_slots (t : nat) : list nat := match t with O => [1; 2]%nat | _ => [0%nat] end.
-Definition slot_score (req tot fr : res) (k : nat) : option Z :=
+Definition slot_score (most : bool) (req tot fr : res) (k : nat) : option Z :=
   let tq := rval tot k in
   if tq =? 0 then None
   else let fq := rval fr k in
        let rq := if fq <=? tq then tq - fq + rval req k else tq in
-       Some (if tq <? rq then 0 else Z.quot ((tq - rq) * 100) tq).
-Definition score_device (t : nat) (req tot fr : res) : Z :=
-  let ss := map (slot_score req tot fr) (weighted_slots t) in
+       Some (if most then deviceshare_mostRequestedScore rq tq else deviceshare_leastRequestedScore rq tq).
+Definition score_device (most : bool) (t : nat) (req tot fr : res) : Z :=
+  let ss := map (slot_score most req tot fr) (weighted_slots t) in
   let n := Z.of_nat (length (filter (fun o => match o with Some _ => true | None => false end) ss)) in
   if n =? 0 then 0 else Z.quot (sumZ (map oz ss)) n.
 
@@ -268,21 +271,21 @@ Definition score_device (t : nat) (req tot fr : res) : Z :=
 Notation cand := (nat * res * Z)%type.
 Definition cand_leb (a b : cand) : bool :=
   (snd b <? snd a) || ((snd a =? snd b) && Nat.leb (fst (fst a)) (fst (fst b))).
-Fixpoint candidates (t : nat) (scored : bool) (req : res) (v : ledger) (i : nat) (fr : devres) : list cand :=
+Fixpoint candidates (most : bool) (t : nat) (scored : bool) (req : res) (v : ledger) (i : nat) (fr : devres) : list cand :=
   match fr with
   | [] => []
-  | None :: rest => candidates t scored req v (S i) rest
+  | None :: rest => candidates most t scored req v (S i) rest
   | Some f :: rest =>
-      (i, f, if scored then score_device t req (ores (dget (total v) i)) f else 0)
-        :: candidates t scored req v (S i) rest
+      (i, f, if scored then score_device most t req (ores (dget (total v) i)) f else 0)
+        :: candidates most t scored req v (S i) rest
   end.
 Definition eligible (req : res) (c : cand) : bool :=
   negb (ris_zero (snd (fst c))) && rle req (snd (fst c)).
 
 (* defaultAllocateDevices (no hints, no required / preferred minors, no VFs) on the filtered view *)
-Definition default_allocate (t : nat) (scored : bool) (v : ledger) (req : res) (desired maxd : nat)
+Definition default_allocate (most : bool) (t : nat) (scored : bool) (v : ledger) (req : res) (desired maxd : nat)
   : option (list alloc) :=
-  let cs := sort_by cand_leb (filter (eligible req) (candidates t scored req v 0 (free v))) in
+  let cs := sort_by cand_leb (filter (eligible req) (candidates most t scored req v 0 (free v))) in
   let chosen := firstn maxd cs in
   if Nat.ltb (length chosen) desired then None
   else Some (map (fun c => (fst (fst c), req)) chosen).
@@ -360,6 +363,7 @@ Record topo_ctx := mkCtx {
   tc_n : nat;              (* numberOfGPUs *)
   tc_shared : bool;        (* gpuShared *)
   tc_scored : bool;        (* a scorer is present (Reserve) *)
+  tc_most : bool;          (* the scorer's strategy is MostAllocated *)
   tc_req : res;            (* requestsPerGPU *)
   tc_view : ledger;        (* the filtered nodeDevice *)
   tc_scope_total : devres; (* scope.minorsResources: totals as of the last refresh *)
@@ -373,7 +377,7 @@ Definition topo_sat (c : topo_ctx) (m : nat) : bool :=
 (* scoreDevice is called with (request, free, total): the roles of total and free are swapped *)
 Definition topo_score (c : topo_ctx) (m : nat) : Z :=
   if tc_shared c && tc_scored c
-  then score_device 0 (tc_req c) (ores (dget (free (tc_view c)) m)) (ores (dget (tc_scope_total c) m))
+  then score_device (tc_most c) 0 (tc_req c) (ores (dget (free (tc_view c)) m)) (ores (dget (tc_scope_total c) m))
   else 0.
 Definition scope_hit (c : topo_ctx) (minors : list nat) : Z :=
   if existsb (fun m => memn m (tc_used c)) minors then 1 else 0.
@@ -445,8 +449,12 @@ Definition hopper_table (n : nat) : option (list (list nat)) :=
   | 8 => Some [[0; 1; 2; 3; 4; 5; 6; 7]]
   | _ => None
   end%nat.
-Definition has_part_table (kind : Z) : bool := (kind =? 1) || (kind =? 2).
-Definition honor_part (kind : Z) : bool := kind =? 1.
+(* [kind] codes the node's labels and the plugin's scoring strategy: 0 no GPU model label, 1 GPU model
+   H800 + partition policy Honor, 2 GPU model H800; + 4 when the strategy is MostAllocated *)
+Definition most_of (kind : Z) : bool := 4 <=? kind.
+Definition pk (kind : Z) : Z := if most_of kind then kind - 4 else kind.
+Definition has_part_table (kind : Z) : bool := (pk kind =? 1) || (pk kind =? 2).
+Definition honor_part (kind : Z) : bool := pk kind =? 1.
 Definition part_weight (n : nat) : Z :=
   match n with 8%nat => 10000 | 4%nat => 100 | 2%nat => 1 | _ => 0 end.
 Definition disjointb (a b : list nat) : bool := negb (existsb (fun m => memn m b) a).
@@ -498,14 +506,14 @@ Definition alloc_core (kind : Z) (scored : bool) (infos : list devinfo) (t : nat
            (l : ledger) (per : res) (count : Z) (shared : bool) : option (list alloc) :=
   let v := filter_view l (minors_of infos t) in
   let desired := desired_count count in
-  let c := mkCtx desired shared scored per v (build_total infos 0) (real_used orig_used v) in
+  let c := mkCtx desired shared scored (most_of kind) per v (build_total infos 0) (real_used orig_used v) in
   let general :=
     if Nat.eqb t 0 && gpu_topo_ok infos && negb (shared && (1 <? count)) then
       match root_alloc c (root_minors infos) (numa_scopes infos) with
       | Some r => Some (map (fun m => (m, per)) (sr_minors r))
       | None => None
       end
-    else default_allocate t scored v per desired desired in
+    else default_allocate (most_of kind) t scored v per desired desired in
   if Nat.eqb t 0 then
     match part_alloc kind c with
     | PSome ms => Some (map (fun m => (m, per)) ms)
@@ -545,13 +553,42 @@ Definition alloc_type_on (kind : Z) (ls : list ledger) (infos : list devinfo) (t
   let l := ledger_of ls t in
   alloc_core kind false infos t (used l) (preempt_ledger l victims) per count shared.
 
+(* ---------- designated allocations (plugin.go allocate: a pod that carries a device-allocated
+   annotation and whose scheduling hint names the plugin): the allocator may only use the
+   designated devices, each up to min(free, designated amount) — calcFreeWithPreemptible with
+   requiredDeviceResources, util.MinResourceList (keys of both, the smaller value) *)
+Definition omin (a b : option Z) : option Z :=
+  match a, b with Some x, Some y => Some (Z.min x y) | _, _ => None end.
+Definition rmin : res -> res -> res := rmap2 omin.
+Definition desig_free (fr rq : devres) : devres :=
+  dmapi (fun m f => match f, dget rq m with
+                    | Some f', Some r => Some (rmin f' r)
+                    | _, _ => None end) 0 fr.
+(* len(requiredDeviceResources[type]) == 0: the ordinary free map *)
+Definition desig_ledger (l : ledger) (rq : devres) : ledger :=
+  if dis_empty rq then l else mkLedger (total l) (desig_free (free l) rq) [] [].
+(* fillGPUTotalMem(state.designatedAllocation): done in place, only when the node has a GPU entry
+   in deviceTotal ([gkey]); fails on a designated GPU that is absent or exposes nothing *)
+Definition desig_fill (gkey : bool) (tot : devres) (dg : dallocs) : option dallocs :=
+  if gkey then match fill_all tot (allocs_of dg 0) with
+               | Some g => Some (g :: tl dg)
+               | None => None
+               end
+  else Some dg.
+Definition required_of (dg : dallocs) (t : nat) : devres := resources_of (allocs_of dg t).
+
 Inductive alloc_result :=
 | ASkip | AFail (code : Z) | ADone (da : dallocs).
 
 Definition is_req (r : treq) : bool := match r with TReq _ _ _ => true | _ => false end.
 Definition is_invalid (r : treq) : bool := match r with TInvalid => true | _ => false end.
 
-Definition allocate (kind : Z) (ls : list ledger) (infos : list devinfo) (rq : rawreq) : alloc_result :=
+(* [rqs]: the required (designated) resources per device type, [] = none *)
+Definition alloc_type_r (kind : Z) (scored : bool) (ls : list ledger) (infos : list devinfo) (t : nat)
+           (rq : devres) (per : res) (count : Z) (shared : bool) : option (list alloc) :=
+  alloc_core kind scored infos t (used (ledger_of ls t)) (desig_ledger (ledger_of ls t) rq) per count shared.
+Definition allocate_r (kind : Z) (ls : list ledger) (infos : list devinfo) (rq : rawreq) (rqs : list devres)
+  : alloc_result :=
   let reqs := map (treq_of rq) type_ids in
   if existsb is_invalid reqs then AFail c_unresolvable            (* PreFilter *)
   else if negb (existsb is_req reqs) then ASkip                   (* PreFilter: nothing requested *)
@@ -561,7 +598,8 @@ Definition allocate (kind : Z) (ls : list ledger) (infos : list devinfo) (rq : r
   else if part_unsupported kind (treq_of rq 0) then AFail c_unresolvable
   else
     let per_type := map (fun t => match treq_of rq t with
-                                  | TReq per count sh => Some (alloc_type kind true ls infos t per count sh)
+                                  | TReq per count sh =>
+                                      Some (alloc_type_r kind true ls infos t (nth t rqs []) per count sh)
                                   | _ => None end) type_ids in
     if existsb (fun o => match o with Some None => true | _ => false end) per_type
     then AFail c_unsched
@@ -571,6 +609,18 @@ Definition allocate (kind : Z) (ls : list ledger) (infos : list devinfo) (rq : r
       | None => AFail c_error
       | Some g => ADone (g :: tl da)
       end.
+Definition allocate (kind : Z) (ls : list ledger) (infos : list devinfo) (rq : rawreq) : alloc_result :=
+  allocate_r kind ls infos rq [].
+(* the allocation of a pod with a designated allocation [dg] (p.allocate) *)
+Definition allocate_d (kind : Z) (gkey : bool) (ls : list ledger) (infos : list devinfo) (rq : rawreq)
+           (dg : dallocs) : alloc_result :=
+  let reqs := map (treq_of rq) type_ids in
+  if existsb is_invalid reqs then AFail c_unresolvable
+  else if negb (existsb is_req reqs) then ASkip
+  else match desig_fill gkey (total (ledger_of ls 0)) dg with
+       | None => AFail c_error
+       | Some dg' => allocate_r kind ls infos rq (map (required_of dg') type_ids)
+       end.
 
 (* PreFilter, RemovePod for every victim, Filter: only the verdict is produced *)
 Definition preempt_verdict (kind : Z) (ls : list ledger) (infos : list devinfo) (rq : rawreq) (victims : list Z) : Z :=
@@ -589,16 +639,22 @@ Definition preempt_verdict (kind : Z) (ls : list ledger) (infos : list devinfo) 
   else c_ok.
 
 (* ------------------------------------------------------------------ state and steps *)
+(* a scheduling cycle between its Filter and its Reserve phase: the pod's request and, when the pod
+   carries a designated allocation that the scheduling hint makes binding, that allocation (as
+   completed in place by fillGPUTotalMem) *)
+Notation cycle := (rawreq * option dallocs)%type.
 Record state := mkState {
   ledgers : list ledger;                       (* by device type *)
   infos : list devinfo;                        (* nodeDevice.deviceInfos *)
   envrec : list (Z * (dallocs * bool));        (* environment: bound pods, their recorded
                                                   annotation, scheduled here? *)
   envlast : list (Z * dallocs);                (* environment: last annotation of pods that are gone *)
-  nkind : Z     (* node labels: 0 none, 1 GPU model H800 + partition policy Honor, 2 GPU model H800 *)
+  nkind : Z;    (* node labels and scoring strategy, see [most_of] / [pk] *)
+  pend : list (Z * cycle);                     (* environment: scheduling cycles past Filter *)
+  gkey : bool   (* deviceTotal has an entry for the GPU type (never removed once created) *)
 }.
 Definition init_state : state :=
-  mkState [empty_ledger; empty_ledger; empty_ledger] [] [] [] 0.
+  mkState [empty_ledger; empty_ledger; empty_ledger] [] [] [] 0 [] false.
 
 Fixpoint lookup {A} (p : Z) (l : list (Z * A)) : option A :=
   match l with [] => None | (q, v) :: t => if q =? p then Some v else lookup p t end.
@@ -621,9 +677,16 @@ Inductive op :=
 | OPodUpdate (p : Z) (al : list (nat * alloc))
 | OPodTerminated (p : Z)
 | OPreemptFilter (p : Z) (rq : rawreq) (victims : list Z)
-| ONodeKind (kind : Z).
+| ONodeKind (kind : Z)
+| OFilter (p : Z) (rq : rawreq) (hint : bool) (al : list (nat * alloc))
+                                 (* PreFilter + Filter of a cycle that stays open; [al]: the pod's
+                                    device-allocated annotation, [hint]: the scheduling hint names
+                                    the plugin (the annotation is a designated allocation) *)
+| OFilterAgain (p : Z)           (* Filter once more with the same cycle state *)
+| OReserve (p : Z).              (* Reserve of an open cycle: allocate on the ledgers of that moment, commit *)
 
-Definition is_schedule_op (o : op) : bool := match o with OSchedule _ _ => true | _ => false end.
+Definition is_schedule_op (o : op) : bool :=
+  match o with OSchedule _ _ | OReserve _ => true | _ => false end.
 
 (* what one operation reports besides the ledgers: a code and (for scheduling) the allocation *)
 Record opout := mkOut { o_code : Z; o_allocs : dallocs }.
@@ -632,15 +695,48 @@ Definition out_code (c : Z) : opout := mkOut c no_allocs.
 Definition refresh (s : state) (inv : list devinfo) : list ledger :=
   map (fun t => ledger_reset_total (ledger_of (ledgers s) t) (build_total inv t)) type_ids.
 
+Definition is_nil {A} (l : list A) : bool := match l with [] => true | _ => false end.
+(* resetDeviceFree(gpu) runs on every valid add of GPU allocations and creates the GPU entries *)
+Definition gk (s : state) (ls : list ledger) : bool :=
+  gkey s || negb (is_nil (aset (ledger_of ls 0))).
+Definition has_gpu (inv : list devinfo) : bool := existsb (fun i => Nat.eqb (di_type i) 0) inv.
+
 Definition forget (s : state) (p : Z) (da : dallocs) (ls : list ledger) : state :=
-  mkState ls (infos s) (remove_key p (envrec s)) (set_key p da (envlast s)) (nkind s).
+  mkState ls (infos s) (remove_key p (envrec s)) (set_key p da (envlast s)) (nkind s) (pend s) (gk s ls).
+
+(* the designated allocation of a cycle *)
+Definition desig_of (hint : bool) (al : list (nat * alloc)) : option dallocs :=
+  if hint && negb (is_nil al) then Some (group_allocs al) else None.
+Definition code_of (r : alloc_result) : Z :=
+  match r with ASkip => c_skip | AFail c => c | ADone _ => c_ok end.
+(* the verdict of PreFilter + Filter, and the cycle state it leaves behind *)
+Definition filter_verdict (s : state) (c : cycle) : Z * cycle :=
+  match snd c with
+  | None => (preempt_verdict (nkind s) (ledgers s) (infos s) (fst c) [], c)
+  | Some dg =>
+      (code_of (allocate_d (nkind s) (gkey s) (ledgers s) (infos s) (fst c) dg),
+       (fst c, Some match desig_fill (gkey s) (total (ledger_of (ledgers s) 0)) dg with
+                    | Some dg' => dg' | None => dg end))
+  end.
+Definition cycle_allocate (s : state) (c : cycle) : alloc_result :=
+  match snd c with
+  | None => allocate (nkind s) (ledgers s) (infos s) (fst c)
+  | Some dg => allocate_d (nkind s) (gkey s) (ledgers s) (infos s) (fst c) dg
+  end.
+Definition with_pend (s : state) (pd : list (Z * cycle)) : state :=
+  mkState (ledgers s) (infos s) (envrec s) (envlast s) (nkind s) pd (gkey s).
+Definition run_filter (s : state) (p : Z) (c : cycle) : state * opout :=
+  let '(code, c') := filter_verdict s c in
+  (with_pend s (if code =? 0 then set_key p c' (pend s) else remove_key p (pend s)), out_code code).
 
 Definition step (s : state) (o : op) : state * opout :=
   match o with
   | ORefresh inv =>
-      (mkState (refresh s inv) inv (envrec s) (envlast s) (nkind s), out_code 0)
+      (mkState (refresh s inv) inv (envrec s) (envlast s) (nkind s) (pend s) (gkey s || has_gpu inv),
+       out_code 0)
   | ODeviceDelete =>
-      (mkState (refresh s (map unhealthy (infos s))) (infos s) (envrec s) (envlast s) (nkind s), out_code 0)
+      (mkState (refresh s (map unhealthy (infos s))) (infos s) (envrec s) (envlast s) (nkind s) (pend s)
+               (gkey s || has_gpu (infos s)), out_code 0)
   | OSchedule p rq =>
       match lookup p (envrec s) with
       | Some _ => (s, out_code (-1))
@@ -649,8 +745,9 @@ Definition step (s : state) (o : op) : state * opout :=
           | ASkip => (s, out_code c_skip)
           | AFail c => (s, out_code c)
           | ADone da =>
-              (mkState (cache_update true (ledgers s) p da) (infos s)
-                       (set_key p (da, true) (envrec s)) (envlast s) (nkind s), mkOut c_ok da)
+              let ls := cache_update true (ledgers s) p da in
+              (mkState ls (infos s) (set_key p (da, true) (envrec s)) (envlast s) (nkind s) (pend s) (gk s ls),
+               mkOut c_ok da)
           end
       end
   | OUnreserve p =>
@@ -661,7 +758,8 @@ Definition step (s : state) (o : op) : state * opout :=
   | OPodAdd p =>
       match lookup p (envrec s) with
       | Some (da, _) =>
-          (mkState (cache_update true (ledgers s) p da) (infos s) (envrec s) (envlast s) (nkind s), out_code 0)
+          let ls := cache_update true (ledgers s) p da in
+          (mkState ls (infos s) (envrec s) (envlast s) (nkind s) (pend s) (gk s ls), out_code 0)
       | None => (s, out_code (-1))
       end
   | OPodDelete p =>
@@ -669,8 +767,8 @@ Definition step (s : state) (o : op) : state * opout :=
       | Some (da, _) => (forget s p da (cache_update false (ledgers s) p da), out_code 0)
       | None =>
           let da := match lookup p (envlast s) with Some d => d | None => no_allocs end in
-          (mkState (cache_update false (ledgers s) p da) (infos s) (envrec s) (envlast s) (nkind s),
-           out_code (-1))
+          let ls := cache_update false (ledgers s) p da in
+          (mkState ls (infos s) (envrec s) (envlast s) (nkind s) (pend s) (gk s ls), out_code (-1))
       end
   | OPodTerminated p =>
       match lookup p (envrec s) with
@@ -682,21 +780,46 @@ Definition step (s : state) (o : op) : state * opout :=
       | Some _ => (s, out_code (-1))
       | None =>
           let da := group_allocs al in
-          (mkState (cache_update true (ledgers s) p da) (infos s)
-                   (set_key p (da, false) (envrec s)) (envlast s) (nkind s), out_code 0)
+          let ls := cache_update true (ledgers s) p da in
+          (mkState ls (infos s) (set_key p (da, false) (envrec s)) (envlast s) (nkind s) (pend s) (gk s ls),
+           out_code 0)
       end
   | OPreemptFilter p rq victims =>
       (s, out_code (preempt_verdict (nkind s) (ledgers s) (infos s) rq victims))
   | ONodeKind kind =>
-      (mkState (ledgers s) (infos s) (envrec s) (envlast s) kind, out_code 0)
+      (mkState (ledgers s) (infos s) (envrec s) (envlast s) kind (pend s) (gkey s), out_code 0)
   | OPodUpdate p al =>
       match lookup p (envrec s) with
       | None => (s, out_code (-1))
       | Some (old, _) =>
           let da := group_allocs al in
           let ls1 := cache_update false (ledgers s) p old in
-          (mkState (cache_update true ls1 p da) (infos s)
-                   (set_key p (da, false) (envrec s)) (envlast s) (nkind s), out_code 0)
+          let ls := cache_update true ls1 p da in
+          (mkState ls (infos s) (set_key p (da, false) (envrec s)) (envlast s) (nkind s) (pend s)
+                   (gk s ls1 || negb (is_nil (aset (ledger_of ls 0)))), out_code 0)
+      end
+  | OFilter p rq hint al =>
+      match lookup p (envrec s) with
+      | Some _ => (s, out_code (-1))
+      | None => run_filter s p (rq, desig_of hint al)
+      end
+  | OFilterAgain p =>
+      match lookup p (envrec s), lookup p (pend s) with
+      | None, Some c => run_filter s p c
+      | _, _ => (s, out_code (-1))
+      end
+  | OReserve p =>
+      match lookup p (envrec s), lookup p (pend s) with
+      | None, Some c =>
+          match cycle_allocate s c with
+          | ASkip => (with_pend s (remove_key p (pend s)), out_code c_skip)
+          | AFail code => (with_pend s (remove_key p (pend s)), out_code code)
+          | ADone da =>
+              let ls := cache_update true (ledgers s) p da in
+              (mkState ls (infos s) (set_key p (da, true) (envrec s)) (envlast s) (nkind s)
+                       (remove_key p (pend s)) (gk s ls), mkOut c_ok da)
+          end
+      | _, _ => (s, out_code (-1))
       end
   end.
 
